@@ -145,24 +145,31 @@ def isInfNum (v : Value) : Bool :=
   | .n (.inf _) => true
   | _ => false
 
-def rangeImpl (E : Env) : Fn.ImplFn := fun args _ =>
-  let sel : Res (Value × Value × Value × Bool) :=
+/-- `step.RawEquals(cty.Zero)` on a known, unmarked number: `Equals(...).True()`, i.e.
+`rawNumberEqual` with the 53-bit zero (true for every zero, of either sign) -/
+def isZeroNum (v : Value) : Bool :=
+  match v.v with
+  | .n x => Num.rawEqual x (.fin false 0 0 53)
+  | _ => false
+
+def rangeImpl (_E : Env) : Fn.ImplFn := fun args _ =>
+  let sel : Res (Value × Value × Value) :=
     match args with
     | [a] =>
       (match isTrueR (Value.lessThan a zero) with
-       | .ok true => .ok (zero, a, intVal (-1), false)
-       | .ok false => .ok (zero, a, intVal 1, false)
+       | .ok true => .ok (zero, a, intVal (-1))
+       | .ok false => .ok (zero, a, intVal 1)
        | r => Res.cast r)
     | [a, b] =>
       (match isTrueR (Value.lessThan b a) with
-       | .ok true => .ok (a, b, intVal (-1), false)
-       | .ok false => .ok (a, b, intVal 1, false)
+       | .ok true => .ok (a, b, intVal (-1))
+       | .ok false => .ok (a, b, intVal 1)
        | r => Res.cast r)
-    | [a, b, c] => .ok (a, b, c, E.stepIsZeroSingleton)
+    | [a, b, c] => .ok (a, b, c)
     | _ => .err "must have one, two, or three arguments"
   match sel with
-  | .ok (start, stop, step, stepIsZero) =>
-    if stepIsZero then .err "step must not be zero"
+  | .ok (start, stop, step) =>
+    if isZeroNum step then .err "step must not be zero"
     else if isInfNum step then .err "step must be finite"
     else
       (match isTrueR (Value.lessThan step zero) with
